@@ -1,8 +1,10 @@
 #!/usr/bin/env python3-vt
-import json, jsonschema, glob, sys
-jsonschema.validate(json.load(open('/verif/MANIFEST.json')), json.load(open('/root/.vp/MANIFEST.schema.json')))
+import json, jsonschema, glob, os
+V = os.path.dirname(os.path.dirname(os.path.abspath(__file__)))
+if os.path.exists(V + '/MANIFEST.json'):
+    jsonschema.validate(json.load(open(V + '/MANIFEST.json')), json.load(open('/root/.vp/MANIFEST.schema.json')))
+    print("manifest valid")
 es = json.load(open('/root/.vp/EVIDENCE.schema.json'))
-for f in sorted(glob.glob('/verif/evidence/*.json')):
+for f in sorted(glob.glob(V + '/evidence/*.json')):
     jsonschema.validate(json.load(open(f)), es)
     print("valid", f)
-print("manifest valid")
